@@ -650,3 +650,7 @@ SUBCHECKS = [
     Sub('C06.derived_and_nonmoving', run, strategy=case_st(['derive', 'nonmoving', 'setpos', 'read_int'], max_steps=8), examples={'quick': 5000, 'thorough': 60000}),
     Sub('C06.history', run, strategy=case_st(None, max_steps=30), examples={'quick': 5000, 'thorough': 80000}),
 ]
+
+for _s in SUBCHECKS:
+    if _s.name in ['C06.history']:
+        _s.fuzz = True
